@@ -216,7 +216,16 @@ func (c *FnCtx) seqUpdate(s, i, v *Term) *Term {
 		mid = ts.Unit(v)
 	}
 	n := ts.Len(s)
-	return ts.Concat(ts.Concat(ts.Extract(s, ts.Int(0), i), mid), ts.Extract(s, ts.Add(i, ts.Int(1)), ts.Sub(ts.Sub(n, i), ts.Int(1))))
+	r := ts.Concat(ts.Concat(ts.Extract(s, ts.Int(0), i), mid), ts.Extract(s, ts.Add(i, ts.Int(1)), ts.Sub(ts.Sub(n, i), ts.Int(1))))
+	if s.sort != SString && r.kind == kApp && c.curState != nil {
+		// element-wise characterisation of an in-place element update (lemma for quantified invariants)
+		bv := ts.Bound("u", SInt)
+		inRange := ts.And(ts.Le(ts.Int(0), i), ts.Lt(i, n))
+		c.addFactNth(c.curState, r, ts.Quant("forall", bv, ts.Implies(ts.And(inRange, ts.Le(ts.Int(0), bv), ts.Lt(bv, n)),
+			ts.Eq(ts.Nth(r, bv), ts.Ite(ts.Eq(bv, i), v, ts.Nth(s, bv))))))
+		c.addFactNth(c.curState, r, ts.Implies(inRange, ts.Eq(ts.Len(r), n)))
+	}
+	return r
 }
 
 func (c *FnCtx) updatePath(cur *Term, curT types.Type, path []Sel, v *Term) *Term {
@@ -237,6 +246,8 @@ func (c *FnCtx) updatePath(cur *Term, curT types.Type, path []Sel, v *Term) *Ter
 
 // store writes v through pointer p.
 func (c *FnCtx) store(st *State, p *PtrVal, v *Term) {
+	c.curState = st
+	defer func() { c.curState = nil }()
 	_ = c.eng.ts
 	if p.cell != nil {
 		if p.cell.detached {
@@ -360,6 +371,9 @@ func (c *FnCtx) execInstr(fr *Frame, st *State, in ssa.Instruction) {
 			c.addFact(st, f)
 		}
 		fr.regs[x] = b
+		if o, ok := fr.origin[x.X]; ok {
+			fr.origin[x] = o
+		}
 	case *ssa.TypeAssert:
 		c.typeAssert(fr, st, x)
 	case *ssa.Extract:
